@@ -631,10 +631,9 @@ func c08GenOKP(r *vf.Rand, crv string, priv bool) c08Mat {
 
 func c08randPrime(r *vf.Rand, bits int, e int64) *big.Int {
 	for {
-		b := r.Bytes((bits + 7) / 8)
-		b[0] |= 0xC0
-		b[len(b)-1] |= 1
-		p := new(big.Int).SetBytes(b)
+		p := new(big.Int).SetBytes(r.Bytes((bits + 7) / 8))
+		p.Mod(p, new(big.Int).Lsh(big.NewInt(1), uint(bits))) // exactly `bits` bits, the two top bits set
+		p.SetBit(p, bits-1, 1).SetBit(p, bits-2, 1).SetBit(p, 0, 1)
 		if !p.ProbablyPrime(12) {
 			continue
 		}
@@ -648,13 +647,23 @@ func c08randPrime(r *vf.Rand, bits int, e int64) *big.Int {
 
 // c08GenRSA builds an RSA key with nprimes primes of bits/nprimes bits each (deterministic).
 func c08GenRSA(r *vf.Rand, bits int, e int, nprimes int) c08Mat {
+	pb := make([]int, nprimes)
+	for i := range pb {
+		pb[i] = bits / nprimes
+	}
+	return c08GenRSAx(r, pb, e)
+}
+
+// c08GenRSAx: one prime per entry of primeBits (each with its two top bits set, so the modulus
+// has exactly sum(primeBits) bits).
+func c08GenRSAx(r *vf.Rand, primeBits []int, e int) c08Mat {
 	for {
 		var primes []*big.Int
 		n := big.NewInt(1)
 		lam := big.NewInt(1)
 		ok := true
-		for i := 0; i < nprimes; i++ {
-			p := c08randPrime(r, bits/nprimes, int64(e))
+		for _, pbits := range primeBits {
+			p := c08randPrime(r, pbits, int64(e))
 			for _, q := range primes {
 				if q.Cmp(p) == 0 {
 					ok = false
@@ -681,6 +690,25 @@ func c08GenRSA(r *vf.Rand, bits int, e int, nprimes int) c08Mat {
 	}
 }
 
+// exponents at every octet-length boundary: 2^(8k)-1, 2^(8k), 2^(8k)+1 and bit lengths = 0, 1, 7
+// (mod 8) for k = 1..4.  Even values can only be public exponents.
+var c08BoundaryE = []int{2, 127, 128, 129, 251, 255, 256, 257, 32767, 32768, 32769, 65535, 65536, 65537, 8388607, 8388608,
+	8388609, 16777215, 16777216, 16777217, 1073741824, 2147483647}
+
+// RSA members in the Base64urlUInt encoding and their values for m
+func (m c08Mat) rsaMembers() map[string]*big.Int {
+	out := map[string]*big.Int{"n": c08hex(m.N), "e": big.NewInt(int64(m.E))}
+	if m.Priv {
+		one := big.NewInt(1)
+		d, p, q := c08hex(m.D), c08hex(m.P[0]), c08hex(m.P[1])
+		out["d"], out["p"], out["q"] = d, p, q
+		out["dp"] = new(big.Int).Mod(d, new(big.Int).Sub(p, one))
+		out["dq"] = new(big.Int).Mod(d, new(big.Int).Sub(q, one))
+		out["qi"] = new(big.Int).ModInverse(q, p)
+	}
+	return out
+}
+
 var (
 	c08rsaOnce sync.Once
 	c08rsaPool []c08Mat
@@ -693,6 +721,37 @@ func c08RSAPool() []c08Mat {
 			{1024, 257}, {2048, 65537}, {2048, 3}, {640, 2147483647}} {
 			for i := 0; i < 2; i++ {
 				c08rsaPool = append(c08rsaPool, c08GenRSA(r, spec[0], spec[1], 2))
+			}
+		}
+		// odd exponents at the octet-length boundaries, as full private keys
+		for _, e := range c08BoundaryE {
+			if e%2 == 1 && e > 2 {
+				c08rsaPool = append(c08rsaPool, c08GenRSAx(r, []int{256, 256}, e))
+			}
+		}
+		// moduli and primes whose bit length is 0, 1, 7 (mod 8)
+		for _, pb := range [][]int{{256, 257}, {256, 263}, {255, 256}, {257, 263}, {249, 263}, {264, 264}} {
+			c08rsaPool = append(c08rsaPool, c08GenRSAx(r, pb, 65537))
+		}
+		// d, dp, dq, qi: search keys until every bit length class 0, 1, 7 (mod 8) occurred for each
+		need := map[string]bool{}
+		for _, name := range []string{"d", "dp", "dq", "qi"} {
+			for _, res := range []int{0, 1, 7} {
+				need[fmt.Sprintf("%s:%d", name, res)] = true
+			}
+		}
+		for i := 0; i < 600 && len(need) > 0; i++ {
+			m := c08GenRSAx(r, []int{192, 192}, []int{3, 17, 65537}[i%3])
+			keep := false
+			for name, v := range m.rsaMembers() {
+				k := fmt.Sprintf("%s:%d", name, v.BitLen()%8)
+				if need[k] {
+					delete(need, k)
+					keep = true
+				}
+			}
+			if keep {
+				c08rsaPool = append(c08rsaPool, m)
 			}
 		}
 	})
@@ -708,6 +767,9 @@ func c08GenRSAMat(r *vf.Rand, priv bool) c08Mat {
 	m.Pre = r.Intn(3) != 0
 	if !priv {
 		m.Priv, m.D, m.P, m.Pre = false, "", nil, false
+		if r.Intn(2) == 0 {
+			m.E = c08BoundaryE[r.Intn(len(c08BoundaryE))] // any e >= 2 is a public exponent
+		}
 	}
 	return m
 }
@@ -768,6 +830,55 @@ func c08CertFor(r *vf.Rand, m c08Mat, serial int64) []byte {
 	}
 	return der
 }
+
+// c08SiblingMat: another key of the same type/curve/size (its certificate has the size of m's).
+func c08SiblingMat(r *vf.Rand, m c08Mat) c08Mat {
+	switch m.Kind {
+	case "ec", "ecdh":
+		if m.Crv == "X25519" || m.Crv == "secp256k1" {
+			return c08GenEC(r, "P-256", false)
+		}
+		return c08GenEC(r, m.Crv, false)
+	case "rsa":
+		bl := c08hex(m.N).BitLen()
+		for _, o := range c08RSAPool() {
+			if o.N != m.N && o.E == m.E && c08hex(o.N).BitLen() == bl {
+				return o
+			}
+		}
+		return c08GenRSAx(r, []int{bl / 2, bl - bl/2}, 65537)
+	}
+	return c08GenOKP(r, "Ed25519", false)
+}
+
+// c08ChainTail returns further certificates to put after the leaf: "ca" (the issuer), "sibling"
+// (a certificate of the same size for another key), "longer" (an RSA-2048 certificate), "three".
+func c08ChainTail(r *vf.Rand, m c08Mat, shape string, serial int64) [][]byte {
+	_, ca := c08CA()
+	sib := c08CertFor(r, c08SiblingMat(r, m), serial)
+	var long []byte
+	for _, o := range c08RSAPool() {
+		if c08hex(o.N).BitLen() == 2048 && o.N != m.N {
+			long = c08CertFor(r, o, serial)
+			break
+		}
+	}
+	switch shape {
+	case "ca":
+		return [][]byte{ca.Raw}
+	case "sibling":
+		return [][]byte{sib}
+	case "longer":
+		return [][]byte{long}
+	case "three":
+		return [][]byte{sib, ca.Raw}
+	case "threelong":
+		return [][]byte{long, sib}
+	}
+	return nil
+}
+
+var c08ChainShapes = []string{"ca", "sibling", "longer", "three", "threelong"}
 
 // ---------------------------------------------------------------------------------------------
 // misc
